@@ -405,7 +405,9 @@ Definition reply_step (s : st) (k : nat) : st :=
              | (c', RReading) :: l' =>
                  if Nat.eqb c' c then
                    (if goon_read (status_ s) then set_cpc s k (CDone ROk)
-                    else set_rpc s i (RAtRead (status_ s)))          (* loop exits: !goonRead() *)
+                    else (* loop exits on !goonRead(); abortReply completes the bound call
+                            with connection-closed *)
+                      set_cpc (set_rpc s i (RAtRead (status_ s))) k (CDone RClosed))
                  else find l' (S i)
              | _ :: l' => find l' (S i)
              end) (readers s) 0
